@@ -41,11 +41,16 @@ type stats struct {
 	aclFlipped, oddTargetNames, updatesOnlyRound, atomicTwist                                  bool
 	foreignWrite, foreignDeniedStored, pollFlood, pollFloodBig, pollFloodLeftStalled           bool
 	dressed, malformedFirst, twinPaths, streamHalfClosed                                       bool
+	valueKinds                                                                                 map[string]bool
 	skippedSteps, maxBulk, maxOnceLeaves                                                       int
 }
 
 func (s *stats) labels() []string {
 	var l []string
+	for k := range s.valueKinds {
+		l = append(l, "value-kind:"+k)
+	}
+	sort.Strings(l)
 	add := func(b bool, n string) {
 		if b {
 			l = append(l, n)
@@ -669,6 +674,10 @@ func (w *world) buildNoti(op *WOp) *pb.Notification {
 		if i == 0 && first != nil {
 			p = first
 		}
+		if w.st.valueKinds == nil {
+			w.st.valueKinds = map[string]bool{}
+		}
+		w.st.valueKinds[u.Val.Kind] = true
 		n.Update = append(n.Update, gn.MakeUpdate(w.wpath(op, p), u.Val))
 	}
 	if op.Atomic {
